@@ -206,6 +206,9 @@ def find_in_scope(
         # If use_mod is Import then it will not exist in the obj_tree
         if type(use_info) is Import:
             continue
+        # Entries that do not name an indexed module (e.g. merged IMPORT statements)
+        if use_mod not in obj_tree:
+            continue
         use_scope = obj_tree[use_mod][0]
         # Module name is request
         if use_mod.lower() == var_name_lower:
